@@ -27,6 +27,15 @@ for log in ['r2quick.log', 'r3quick.log', 'r4quick.log']:
         if m: cur = m.group(1); continue
         m = re.match(r'\s*(C\d\d) exit=1 violations=\d+ oracle=(\S*)', l)
         if m and cur: note(cur, m.group(1), m.group(2), first=True)
+final_seen = set(); final_caught = collections.defaultdict(set)
+for d in glob.glob(root + '/C*-*'):
+    seed = os.path.basename(d)
+    f = d + '/final.txt'
+    if os.path.exists(f):
+        final_seen.add(seed)
+        for l in open(f):
+            m = re.match(r'\s*(C\d\d) exit=1 violations=\d+ oracle=(\S*)', l)
+            if m: note(seed, m.group(1), m.group(2)); final_caught[seed].add(m.group(1))
 for l in open(root + '/confirmed.txt'):
     if l.startswith('#') or not l.strip(): continue
     seed, check, oracle = l.split()[:3]
@@ -72,4 +81,9 @@ for s in seeds:
     meta["caught_by_quick_checks"] = sorted(caught[s])
     meta["first_violation_oracle"] = {c: o for c, o in caught[s].items() if o}
     json.dump(meta, open(mp, 'w'), indent=1)
+if final_seen:
+    lost = sorted(s for s in final_seen if not final_caught[s])
+    out_extra = f"Final confirmation run (tools/final_matrix.sh, current machinery, own check + one more): {len(final_seen)} seeds, {len(final_seen) - len(lost)} reported" + (f"; NOT reported: {', '.join(lost)}" if lost else "") + "."
+    open(root + '/RESULTS.md', 'a').write(out_extra + '\n')
+    print(out_extra)
 print(len(seeds), 'seeds; missed first pass', len(missed_first), '; not caught now', len(missed_now), missed_now)
